@@ -411,6 +411,21 @@ func (s *h) Threads() []func() {
 			}
 		})
 	}
+	if s.sc.gated {
+		// Storage-level mode: the threads are spawned as a chain (thread i starts thread i+1 as its
+		// first action and then waits at the gate), so that their "start" steps are forced moves
+		// instead of n! equivalent orders.
+		var chain func(i int) func()
+		chain = func(i int) func() {
+			return func() {
+				if i+1 < len(fs) {
+					vsched.Go(chain(i + 1))
+				}
+				fs[i]()
+			}
+		}
+		return []func(){chain(0)}
+	}
 	return fs
 }
 
@@ -442,6 +457,21 @@ func (s *h) refName(i int) string {
 	return fmt.Sprintf("%s.ref.%d.%06d", s.objName, i+1, uint64(fileNumOf(i)))
 }
 
+// interleaving renders the calls with an effect on or a view of the shared store (everything but
+// CreateObject and the harness's own events) made by the threads: two executions with the same
+// interleaving differ only in the order of provider-local steps.
+func (s *h) interleaving() string {
+	var b strings.Builder
+	for _, e := range s.core.log[s.setupLen:] {
+		switch e.Op {
+		case "put", "delete", "size", "open", "readat", "list":
+			b.WriteString(strings.ReplaceAll(e.String(), s.objName, "O"))
+			b.WriteString("; ")
+		}
+	}
+	return b.String()
+}
+
 func (s *h) renderLog() string {
 	var b strings.Builder
 	for k, e := range s.core.log {
@@ -461,7 +491,11 @@ var ctx *vlib.Ctx
 func judge(hh vsched.Harness, x *vsched.Exec) (outcome, class, desc string) {
 	s := hh.(*h)
 	if ctx != nil && s.torn {
-		ctx.State(vlib.Hash("log", s.sc.name, s.renderLog()))
+		il := s.interleaving()
+		ctx.State(vlib.Hash("interleaving", s.sc.threads, s.sc.pre, il))
+		if os.Getenv("C41_DUMPLOGS") != "" {
+			fmt.Printf("LOG %v %s\n", x.Choices, il)
+		}
 	}
 	if !s.torn {
 		return "no-teardown", "harness-no-teardown", "Teardown did not run"
@@ -649,26 +683,35 @@ func plans() []plan {
 	s3 := [][]step{{X}, {X}, {A(1), R}}
 	// S5: S2 with attachers that remove again: the last of three must delete.
 	s5 := [][]step{{X}, {A(0), X}, {A(0), X}}
-	// The in-thread read adds two storage calls per attacher; in storage-level mode with three
-	// threads it is left to the end-of-execution read (the shadow store already decides existence at
-	// every step).
-	s2n := [][]step{{X}, {A(0)}, {A(0)}}
-	s3n := [][]step{{X}, {X}, {A(1)}}
+	// S5r: S5 with the read between attach and remove.
+	s5r := [][]step{{X}, {A(0), R, X}, {A(0), R, X}}
+	// S6: S3 with an attacher that removes again (three removals, one racing attach).
+	s6 := [][]step{{X}, {X}, {A(1), R, X}}
+	// S7: as S3, but P3 attaches from the creator's backing while the earlier attacher P2 removes too.
+	s7 := [][]step{{X}, {X}, {A(0), R}}
+	g := func(name string, nprov int, pre []int, th [][]step, w float64, quick bool) plan {
+		return plan{sc: scen{name: name, nprov: nprov, pre: pre, threads: th, gated: true}, weight: w, quickTier: quick, thorTier: true}
+	}
+	f := func(name string, nprov int, pre []int, th [][]step, q, t int, w float64) plan {
+		return plan{sc: scen{name: name, nprov: nprov, pre: pre, threads: th}, quick: q, thorough: t, weight: w, quickTier: true, thorTier: true}
+	}
+	p2 := []int{1}
 	return []plan{
-		// storage-level mode: every interleaving of the storage calls, no bound
-		{sc: scen{name: "S1-all", nprov: 2, threads: s1, gated: true}, weight: 0.3, quickTier: true, thorTier: true},
-		{sc: scen{name: "S4-all", nprov: 2, threads: s4, gated: true}, weight: 0.3, quickTier: true, thorTier: true},
-		{sc: scen{name: "S3-all", nprov: 3, pre: []int{1}, threads: s3n, gated: true}, weight: 2, quickTier: true, thorTier: true},
-		{sc: scen{name: "S2-all", nprov: 3, threads: s2n, gated: true}, weight: 2, quickTier: true, thorTier: true},
-		{sc: scen{name: "S5-all", nprov: 3, threads: s5, gated: true}, weight: 4, quickTier: true, thorTier: true},
-		{sc: scen{name: "S3r-all", nprov: 3, pre: []int{1}, threads: s3, gated: true}, weight: 2, thorTier: true},
-		{sc: scen{name: "S2r-all", nprov: 3, threads: s2, gated: true}, weight: 4, thorTier: true},
+		// storage-level mode: every interleaving of the storage calls (bound 0 is already unbounded)
+		g("S1-all", 2, nil, s1, 0.2, true),
+		g("S4-all", 2, nil, s4, 0.2, true),
+		g("S3-all", 3, p2, s3, 1, true),
+		g("S7-all", 3, p2, s7, 1, true),
+		g("S2-all", 3, nil, s2, 3, true),
+		g("S5-all", 3, nil, s5, 5, true),
+		g("S6-all", 3, p2, s6, 3, false),
+		g("S5r-all", 3, nil, s5r, 10, false),
 		// full mode: every hooked mutex/atomic operation is a scheduling point as well
-		{sc: scen{name: "S1-full", nprov: 2, threads: s1}, quick: 2, thorough: 4, weight: 0.5, quickTier: true, thorTier: true},
-		{sc: scen{name: "S4-full", nprov: 2, threads: s4}, quick: 2, thorough: 4, weight: 0.5, quickTier: true, thorTier: true},
-		{sc: scen{name: "S2-full", nprov: 3, threads: s2}, quick: 1, thorough: 2, weight: 1, quickTier: true, thorTier: true},
-		{sc: scen{name: "S3-full", nprov: 3, pre: []int{1}, threads: s3}, quick: 1, thorough: 2, weight: 1, quickTier: true, thorTier: true},
-		{sc: scen{name: "S5-full", nprov: 3, threads: s5}, quick: 1, thorough: 2, weight: 1, quickTier: true, thorTier: true},
+		f("S1-full", 2, nil, s1, 2, 4, 0.5),
+		f("S4-full", 2, nil, s4, 2, 4, 0.5),
+		f("S3-full", 3, p2, s3, 1, 3, 2),
+		f("S2-full", 3, nil, s2, 1, 3, 3),
+		f("S5-full", 3, nil, s5, 1, 3, 4),
 	}
 }
 
